@@ -242,6 +242,7 @@ Inductive kont :=
 | KComplete_up (r : complete_promise_req) (p : promise) (cmd : update_promise_cmd) (status : Z)
 | KCallback (pid : string) (cbid : string) (m : mesg) (timeout : Z) (recv : string)
 | KCallback_ins (p : promise) (c : create_callback_cmd)
+| KCallback_reread (pid : string)
 | KSearchP (idq : string) (states : list Z) (tags : smap) (limit : Z) (sortid : option Z)
 (* schedules *)
 | KReadS
@@ -585,7 +586,15 @@ Definition resume_seq (cfg : config) (k : kont) (c : cpl) (now : Z) (next : nat)
     match one_alter c with
     | None => store_err
     | Some n => if n =? 1 then out_fin (RspCallback StCreated (Some p) (Some (new_callback cc)))
-                else out_fin (RspCallback StOK (Some p) None)
+                else (* no row inserted: the callback exists already or the promise was completed meanwhile;
+                        the promise is read again so that the answer is never a stale pending promise *)
+                  out_wait (KCallback_reread (cc_pid cc)) next (SStore [ReadPromise (cc_pid cc)])
+    end
+  | KCallback_reread pid =>
+    match one_promise c with
+    | None => store_err
+    | Some None => out_fin RspPanic      (* util.Assert: promise must exist *)
+    | Some (Some p) => out_fin (RspCallback StOK (Some p) None)
     end
   (* ----- SearchPromises ----- *)
   | KSearchP idq st tg lim sid =>
